@@ -355,11 +355,20 @@ def route_removal(state: VRPState, rng: Random, n_routes: int = 1) -> VRPState:
     n = min(n_routes, len(non_empty))
     to_remove_vehicles = rng.sample(non_empty, n)
 
+    removed: set[int] = set()
     for v in to_remove_vehicles:
-        state.unassigned.update(state.routes[v])
-        state.routes[v] = []
-        state.arrival_times[v] = []
+        removed.update(state.routes[v])
 
+    # A multi-vehicle customer of a removed route also leaves the routes it shares: a customer is
+    # either unassigned or routed, never both
+    for v in range(len(state.routes)):
+        state.routes[v] = [c for c in state.routes[v] if c not in removed]
+
+    state.unassigned.update(removed)
+    for cid in removed:
+        state.sync_assignments.pop(cid, None)
+
+    state.update_arrival_times()
     return state
 
 
